@@ -428,6 +428,17 @@ func c07ClosedChecks(c *Check, P string, r *GCRoles) {
 		for _, f := range Callers([]*ssa.Function{Pub}, r.Fan) {
 			c.Report(GuardedBy(Pub, f, closedFalse), P+".O5", "PUBLISH-NOTHING-WHEN-CLOSED", Pub, f.Pos(), "fan-out", "nothing is sent unless the closed check answered 'open'")
 		}
+		for i, ret := range Returns(Pub) {
+			mayNil := false
+			for _, v := range RetOrigins(ret, 0) {
+				if IsNilConst(v) {
+					mayNil = true
+				}
+			}
+			if mayNil && !KnownNonNilAt(Pub, ret, ret.Results[0]) {
+				c.Report(GuardedBy(Pub, ret, closedFalse), P+".O5", "PUBLISH-SUCCEEDS-ONLY-WHEN-OPEN", Pub, ret.Pos(), fmt.Sprintf("Publish return#%d", i), "every return without an error lies behind the edge on which the closed check answered 'open' (no shortcut — an empty batch, a topic without subscribers — answers for a closed Pub/Sub)")
+			}
+		}
 		var srcs []ErrSource
 		for _, f := range Callers([]*ssa.Function{Pub}, r.Fan) {
 			if n := f.Common().Signature().Results().Len(); n > 0 {
@@ -513,8 +524,20 @@ func c07ClosedChecks(c *Check, P string, r *GCRoles) {
 		}
 	}
 	S := r.Subscribe
-	closedTrue, _ := BoolEdges(S, func(v ssa.Value) bool { return AllOrigins(v, IsFieldLoad(r.Closed)) })
+	closedTrue, openEdges := BoolEdges(S, func(v ssa.Value) bool { return AllOrigins(v, IsFieldLoad(r.Closed)) })
 	ErrorsOnlyFrom(c, P+".O5", "SUBSCRIBE-FAILS-ONLY-WHEN-CLOSED", S, nil, closedTrue, "Subscribe fails only when the Pub/Sub is closed")
+	// … and succeeds only after it has looked: no return without an error in front of (or around) the closed test
+	for i, ret := range Returns(S) {
+		mayNil := false
+		for _, v := range RetOrigins(ret, 1) {
+			if IsNilConst(v) {
+				mayNil = true
+			}
+		}
+		if mayNil && !KnownNonNilAt(S, ret, ret.Results[1]) {
+			c.Report(len(openEdges) > 0 && GuardedBy(S, ret, openEdges), P+".O5", "SUBSCRIBE-SUCCEEDS-ONLY-WHEN-OPEN", S, ret.Pos(), fmt.Sprintf("Subscribe return#%d", i), "every return without an error lies behind the edge on which the closed flag was read as not set (no shortcut — an already ended context, an unknown topic — answers for a closed Pub/Sub)")
+		}
+	}
 	if c.Floor(P+".O5", "closed check in Subscribe", len(closedTrue), 1) {
 		for _, e := range closedTrue {
 			re := ReachEdge(e, nil)
@@ -1091,5 +1114,51 @@ func c07Decorator(c *Check, P string) {
 			}
 		}
 		c.Report(okDone, P+".O7", "PUMP-DONE", pump, pump.Pos(), "pump exit", "the pump signals Done on every exit")
+		// the output channel is closed on every exit, and before Done: Close waits for Done, and after Close every output is closed
+		isOut := func(v ssa.Value) bool {
+			return AllOrigins(v, func(o ssa.Value) bool { mk, ok := o.(*ssa.MakeChan); return ok && mk.Parent() == sub })
+		}
+		closes := CloseSites(pump, isOut)
+		if c.Floor(P+".O7", "close of the decorated output channel in the pump", len(closes), 1) {
+			var dones []ssa.CallInstruction
+			for _, d := range CallsTo(pump, nWGDone) {
+				if f, _ := FieldOf(Receiver(d)); f == wgF {
+					dones = append(dones, d)
+				}
+			}
+			for _, cl := range closes {
+				_, clDefer := cl.(*ssa.Defer)
+				okExit := clDefer && cl.Parent() == pump && !InLoop(cl)
+				if !clDefer {
+					okExit = cl.Parent() == pump && !InLoop(cl)
+					for _, ret := range Returns(pump) {
+						if !Dominates(pump, cl, ret) {
+							okExit = false
+						}
+					}
+				} else {
+					for _, ret := range Returns(pump) {
+						if !Dominates(pump, cl, ret) {
+							okExit = false
+						}
+					}
+				}
+				c.Report(okExit && len(closes) == 1, P+".O7", "PUMP-CLOSES-OUTPUT", pump, cl.Pos(), "close(out)", "the pump closes the channel Subscribe returned exactly once, on every exit")
+				for _, d := range dones {
+					_, dDefer := d.(*ssa.Defer)
+					okOrder := false
+					switch {
+					case !clDefer && !dDefer:
+						okOrder = Dominates(pump, cl, d)
+					case !clDefer && dDefer:
+						okOrder = true
+					case clDefer && dDefer:
+						// deferred calls run last-in-first-out: the Done must be registered first
+						okOrder = d.Parent() == pump && cl.Parent() == pump && Dominates(pump, d, cl)
+					}
+					c.Report(okOrder, P+".O7", "PUMP-CLOSES-OUTPUT-BEFORE-DONE", pump, d.Pos(), "subscribeWg.Done vs close(out)", "the output channel is closed before the pump reports Done (deferred calls run last-in-first-out): when Close's Wait returns every decorated output is closed")
+				}
+			}
+		}
 	}
 }
